@@ -175,6 +175,27 @@ Qed.
 Lemma txt_chunk_pos : (1 <= txt_chunk)%nat.
 Proof. unfold txt_chunk. vm_compute. lia. Qed.
 
+Lemma txt_chunk_byte : (txt_chunk < 256)%nat.
+Proof. unfold txt_chunk. vm_compute. lia. Qed.
+
+Lemma puttxtbin_go_bytes fuel : forall rem from txt,
+  bytes_ok from -> puttxtbin_go fuel rem from = Some txt -> bytes_ok txt.
+Proof.
+  induction fuel as [|fuel IH]; intros rem from txt Hb H.
+  - destruct from; cbn [puttxtbin_go] in H; [inversion H; constructor|discriminate].
+  - destruct from as [|x from']; [cbn [puttxtbin_go] in H; inversion H; constructor|].
+    cbn [puttxtbin_go] in H. set (from := x :: from') in *.
+    set (tc := Nat.min (length from) txt_chunk) in *.
+    destruct (rem <? tc + 1)%nat; [discriminate|].
+    destruct (puttxtbin_go fuel (rem - (tc + 1)) (skipn tc from)) as [rest|] eqn:E; [|discriminate].
+    assert (Ht : txt = N.of_nat tc :: firstn tc from ++ rest) by congruence. clear H. pose proof txt_chunk_byte as Hc.
+    assert (Htc : (tc <= txt_chunk)%nat) by (unfold tc; lia).
+    clearbody tc. clearbody from. rewrite Ht.
+    unfold bytes_ok. apply Forall_cons; [unfold byte_ok; lia|].
+    apply Forall_app. split; [apply bytes_ok_firstn, Hb|].
+    apply (IH _ _ _ (bytes_ok_skipn tc from Hb) E).
+Qed.
+
 Lemma puttxtbin_go_ok fuel : forall rem from,
   (length from < fuel)%nat -> (2 * length from <= rem)%nat ->
   exists txt, puttxtbin_go fuel rem from = Some txt /\ txt_tiled (S (length txt)) txt = true /\
@@ -212,7 +233,8 @@ Lemma answer_txt_form q ls data :
   exists txt, txt_tiled (S (length txt)) txt = true /\ (1 <= length txt)%nat /\ N.of_nat (length txt) < 65536 /\
   dns_encode_answer buf64k q data =
     Some (hdr12 (q_id q) 132 0 1 (N.of_nat (length [txt])) 0 0 ++ enc_name ls ++ DnsWfProofs.be16 (q_type q) ++ DnsWfProofs.be16 1 ++
-          recs12 (q_type q) 1 0 [txt]).
+          recs12 (q_type q) 1 0 [txt]) /\
+  (bytes_ok data -> bytes_ok txt).
 Proof.
   intros Hn Hok Hw Hty Hd.
   unfold dns_encode_answer. rewrite Hn.
@@ -229,8 +251,10 @@ Proof.
   rewrite checklen_true by len_solve. cbn [negb].
   exists txt. split; [exact H2|]. split; [lia|]. split; [lia|].
   replace (N.of_nat (length txt) mod 65536) with (N.of_nat (length txt)) by lia.
-  rewrite <- !app_assoc. rewrite one_record_msg. reflexivity.
+  split; [rewrite <- !app_assoc; rewrite one_record_msg; reflexivity|].
+  intros Hbd. unfold puttxtbin in H1. exact (puttxtbin_go_bytes _ _ _ _ Hbd H1).
 Qed.
+
 
 Lemma txt_codec_cases downenc :
   (exists c, (c = b32 \/ c = b64 \/ c = b64u \/ c = b128) /\ fst (txt_letter_codec downenc) = Some c) \/
@@ -260,7 +284,7 @@ Proof.
   { destruct (txt_codec_cases downenc) as [[c [Hc Hfc]]|Hfc]; rewrite Etc in Hfc; cbn [fst] in Hfc; subst oc; unfold body.
     - apply enc_len_bound, four_wfb, Hc.
     - rewrite firstn_length. lia. }
-  destruct (answer_txt_form q ls (letter :: body) Hn Hok Hw Hty) as [txt [T1 [T2 [T3 T4]]]]; [cbn [length]; lia|].
+  destruct (answer_txt_form q ls (letter :: body) Hn Hok Hw Hty) as [txt [T1 [T2 [T3 [T4 _]]]]]; [cbn [length]; lia|].
   assert (Hq : q_type q < 65536) by (rewrite Hty; unfold T_TXT; lia).
   assert (Hqa : answer_type (q_type q) < 65536) by (rewrite Hat; exact Hq).
   assert (HF : Forall2 (fun rd rdn => N.of_nat (length rd) < 65536 /\ rd_shape (answer_type (q_type q)) rd rdn /\ short_labels rdn)
@@ -268,6 +292,45 @@ Proof.
   { constructor; [|constructor]. split; [exact T3|]. split; [|exact I]. rewrite Hat, Hty. apply rs_txt; assumption. }
   destruct (answer_msg_ok q ls [txt] [None] Hid Hq Hqa) as [msg [Hwf Hans]]; try assumption; [discriminate|cbn [length]; lia|].
   eexists. exists td, msg. split; [rewrite T4; reflexivity|]. split; [rewrite Hat in Hwf; exact Hwf|exact Hans].
+Qed.
+
+(* the TXT record consists of bytes: in particular every string-length byte is a byte (the 252-byte
+   chunks of puttxtbin do not wrap the length byte) *)
+Lemma encode_bytes c cap d : c = b32 \/ c = b64 \/ c = b64u \/ c = b128 -> bytes_ok (fst (encode c cap d)).
+Proof.
+  intros Hc. pose proof (enc_go_alpha c cap 0 d) as HA. unfold encode, bytes_ok. rewrite Forall_forall in *.
+  intros x Hx. destruct (HA x Hx) as [v [Hv ->]]. apply (sym_facts c (four_wfb c Hc) v Hv).
+Qed.
+
+Lemma answer_txt_bytes q ls p downenc td :
+  q_name q = name_of ls -> wf_labels ls -> ls <> [] -> q_id q < 65536 ->
+  q_type q = T_TXT -> (length p <= 4098)%nat -> bytes_ok p ->
+  exists m td' msg, write_dns q p downenc td = (Some m, td') /\ wf_msg m = Some msg /\
+                    exists r, m_answers msg = [r] /\ bytes_ok (rr_rdata r) /\ rr_type r = T_TXT.
+Proof.
+  intros Hn [Hok Hw] Hne Hid Hty Hp Hbp.
+  unfold write_dns. rewrite Hty.
+  change ((T_TXT =? T_CNAME) || (T_TXT =? T_A)) with false. change ((T_TXT =? T_MX) || (T_TXT =? T_SRV)) with false.
+  change (T_TXT =? T_TXT) with true. cbv iota.
+  destruct (txt_letter_codec downenc) as [oc letter] eqn:Etc.
+  set (body := match oc with Some c => fst (encode c (buf64k - 1) p) | None => firstn (buf64k - 1) p end).
+  assert (Hb : (length body <= 2 * length p + 1)%nat /\ bytes_ok body).
+  { destruct (txt_codec_cases downenc) as [[c [Hc Hfc]]|Hfc]; rewrite Etc in Hfc; cbn [fst] in Hfc; subst oc; unfold body.
+    - split; [apply enc_len_bound, four_wfb, Hc|apply encode_bytes, Hc].
+    - split; [rewrite firstn_length; lia|apply bytes_ok_firstn, Hbp]. }
+  destruct Hb as [Hbl Hbb].
+  assert (Hlet : letter < 256).
+  { unfold txt_letter_codec in Etc.
+    destruct (downenc =? 83); [inversion Etc; lia|]. destruct (downenc =? 85); [inversion Etc; lia|].
+    destruct (downenc =? 86); [inversion Etc; lia|]. destruct (downenc =? 82); inversion Etc; lia. }
+  destruct (answer_txt_form q ls (letter :: body) Hn Hok Hw Hty) as [txt [T1 [T2 [T3 [T4 T5]]]]]; [cbn [length]; lia|].
+  assert (Htb : bytes_ok txt) by (apply T5; constructor; assumption).
+  rewrite T4, Hty.
+  eexists. exists td. eexists. split; [reflexivity|]. split.
+  - apply (answer_wf (q_id q) 132 0 ls T_TXT T_TXT 1 0 [txt] [None]); try assumption; try (unfold T_TXT; lia); try (cbn [length]; lia).
+    + apply wf_lens_ok, Hok.
+    + constructor; [|constructor]. split; [exact T3|]. apply rs_txt; assumption.
+  - cbn [m_answers combine map fst snd]. eexists. split; [reflexivity|]. split; [exact Htb|reflexivity].
 Qed.
 
 (* ---------------------------------------------------------------------------------- *)
